@@ -36,6 +36,9 @@ PLANS = {
         (3, 2, 2, "m2", "m2", "two", "probe", "probe", "some", "all", 8),
         (3, 3, 2, "m2", "m1", "two", "probe0", "probe0", "some", "some", 12),
         (3, 3, 3, "m2", "m2", "two", "probe", "probe", "some", "some", 12),
+        # 4-index first operand (2 free + 2 contracted legs): the smallest case in which the fused path has to zero-fill holes
+        (4, 2, 2, "m1", "m1", "two", "probe", "probe0", "all", "some", 4),
+        (4, 3, 2, "m1", "m1", "one", "probe", "probe0", "some", "some", 8),
     ],
 }
 PLANS["thorough"] = PLANS["quick"] + [
